@@ -368,8 +368,15 @@ func (g *schemaGen) clusterSchema() map[string]any {
 		}
 		return m
 	}
-	for _, kw := range subset(c, []int{0, 1, 2, 3, 4, 5, 6}, 2, 4) {
+	for _, kw := range subset(c, []int{0, 1, 2, 3, 4, 5, 6, 7}, 2, 4) {
 		switch kw {
+		case 7:
+			rs := subset(c, propPool, 1, 2)
+			arr := make([]any, len(rs))
+			for i, r := range rs {
+				arr[i] = r
+			}
+			s["required"] = arr
 		case 6:
 			// several dependentRequired entries: some satisfied, some not, all applicable
 			if g.draft7 {
